@@ -5,6 +5,7 @@ import (
 	"context"
 	"errors"
 	"fmt"
+	goat "github.com/avos-io/goat"
 	"sync"
 	"testing"
 	"time"
@@ -36,6 +37,8 @@ type C07Case struct {
 	// Cause: the caller's context carries a custom cancellation cause (WithCancelCause / WithTimeoutCause); the
 	// statuses the property names are those of ctx.Err(), whatever context.Cause says
 	Cause bool `json:"cause,omitempty"`
+	// Stats: a (do-nothing) stats handler is installed on the server and on the client connection
+	Stats bool `json:"stats,omitempty"`
 }
 
 func genC07(t *rapid.T) C07Case {
@@ -61,6 +64,7 @@ func genC07(t *rapid.T) C07Case {
 	c.Tape = rapid.SliceOfN(rapid.Byte(), 0, 24).Draw(t, "tape")
 	c.ParkSend = c.Kind != kit.KindServer && !c.Close && rapid.IntRange(0, 3).Draw(t, "park_send") == 0
 	c.Cause = rapid.IntRange(0, 3).Draw(t, "cause") == 0
+	c.Stats = rapid.IntRange(0, 2).Draw(t, "stats") == 0
 	return c
 }
 
@@ -157,7 +161,13 @@ func runC07(t *testing.T, c C07Case, pos int) *c07Run {
 				}
 			}
 		})
-		w := kit.NewWorld(kit.Topo{Kind: "direct", Serialize: c.Ser, Clients: 1}, svc, nil, nil)
+		var sopts []goat.ServerOption
+		var dopts []goat.DialOption
+		if c.Stats {
+			sopts = append(sopts, goat.StatsHandler(nopStats{}))
+			dopts = append(dopts, goat.WithStatsHandler(nopStats{}))
+		}
+		w := kit.NewWorld(kit.Topo{Kind: "direct", Serialize: c.Ser, Clients: 1}, svc, sopts, dopts)
 		l := w.Links[0]
 		l.DelayAll()
 		sched := kit.NewSched(l)
@@ -462,7 +472,7 @@ func execC07(t *testing.T, c C07Case) (v Verdict) {
 		}
 	}
 	unread := c.NH - c.Read
-	labels := []string{"kind=" + kit.KindNames[c.Kind], fmt.Sprintf("unread=%d", unread), fmt.Sprintf("deadline=%v", c.Deadline), fmt.Sprintf("cause=%v", c.Cause),
+	labels := []string{"kind=" + kit.KindNames[c.Kind], fmt.Sprintf("unread=%d", unread), fmt.Sprintf("deadline=%v", c.Deadline), fmt.Sprintf("cause=%v", c.Cause), fmt.Sprintf("stats=%v", c.Stats),
 		fmt.Sprintf("bystanders=%d", c.Unary+c.Streams), "htmpl=" + c.HTmpl, fmt.Sprintf("close=%v", c.Close), fmt.Sprintf("park_send=%v", c.ParkSend)}
 	if unread >= 3 {
 		labels = append(labels, "unread>=3")
